@@ -34,11 +34,15 @@ func New[T any](ctx context.Context, cap int) (<-chan T, chan<- T) {
 
 	go func() {
 		defer close(eg)
-		defer close(in)
 
 		for {
 			select {
 			case <-ctx.Done():
+				// no more sends are accepted, the ones already completed are kept
+				close(in)
+				for x := range in {
+					enq(&x, mq)
+				}
 				for mq.head != nil {
 					eg <- head(mq)
 					deq(mq)
@@ -47,6 +51,11 @@ func New[T any](ctx context.Context, cap int) (<-chan T, chan<- T) {
 
 			case x, ok := <-in:
 				if !ok {
+					// the sender has closed the channel: deliver the backlog
+					for mq.head != nil {
+						eg <- head(mq)
+						deq(mq)
+					}
 					return
 				}
 				enq(&x, mq)
